@@ -1,3 +1,382 @@
-use crate::msg_gen::Tier; use crate::rng::Rng; use crate::report::RunReport; use serde_json::Value;
-pub fn gen_c09(_rng: &mut Rng, _tier: Tier) -> Result<Value, serde_json::Error> { Ok(Value::Null) }
-pub fn execute(_s: &Value) -> RunReport { RunReport::default() }
+//! C09 (DESIGN §5): the validity window under a simulated wall clock with per-node skew,
+//! jumps and wallet holding times from seconds to decades.
+
+use crate::gen::{self, GenCfg, Strat};
+use crate::msg::IssuerSpec;
+use crate::msg_gen::{self, clock_base, rand_fmt, Tier};
+use crate::report::{RunReport, Violation};
+use crate::rng::{hash_str, mix, Rng};
+use crate::seams;
+use crate::wire::{Fmt, Message};
+use crate::world::{self, KbArgs, Out, Resolver, World};
+use serde::{Deserialize, Serialize};
+use serde_json::{json, Map, Value};
+use std::collections::{BTreeMap, BTreeSet};
+
+#[derive(Clone, Debug, Serialize, Deserialize, PartialEq)]
+pub enum ExpSpec {
+    Absent,
+    Null,
+    Str(String),
+    /// issuer-local now + d (integer seconds; may be negative = already expired)
+    Rel(i64),
+    /// issuer-local now + d + 0.5
+    RelFrac(i64),
+    /// absolute negative value
+    Neg(i64),
+    /// absolute value (year-2100 cases)
+    Abs(i64),
+}
+
+#[derive(Clone, Debug, Serialize, Deserialize, PartialEq)]
+pub enum NbfSpec {
+    Absent,
+    Rel(i64),
+}
+
+#[derive(Clone, Debug, Serialize, Deserialize, PartialEq)]
+pub enum TEvent {
+    /// the credential rests in the wallet
+    Hold(i64),
+    /// the verifier's clock jumps (NTP step, VM resume): changes its skew
+    JumpVerifier(i64),
+    JumpHolder(i64),
+    /// the holder makes a (new) presentation
+    Present { selection: Map<String, Value>, kb: bool },
+    /// the verifier checks the latest presentation
+    Verify { fmt: Fmt, session: bool },
+}
+
+#[derive(Clone, Debug, Serialize, Deserialize, PartialEq)]
+pub struct TimelineScn {
+    pub kind: String,
+    pub check: String,
+    pub entropy_seed: u64,
+    pub clock_base: i64,
+    pub issuer: IssuerSpec,
+    pub issuer_skew: i64,
+    pub holder_skew: i64,
+    pub verifier_skew: i64,
+    pub claims_body: Map<String, Value>,
+    pub exp: ExpSpec,
+    pub nbf: NbfSpec,
+    pub iat: bool,
+    pub strat: Strat,
+    #[serde(default)]
+    pub holder_key: Option<String>,
+    pub decoys: bool,
+    pub fmt: Fmt,
+    pub events: Vec<TEvent>,
+}
+
+const Y: i64 = 365 * 86400;
+
+fn offset(rng: &mut Rng) -> i64 {
+    // 121 s .. 10 years, log-uniform
+    rng.log_uniform(121, 10 * Y as u64) as i64
+}
+
+pub fn gen_c09(rng: &mut Rng, tier: Tier) -> Result<Value, serde_json::Error> {
+    let issuer = msg_gen::issuers(rng, 1).remove(0);
+    let t0 = clock_base(rng);
+    let skew = |rng: &mut Rng| match rng.usize(5) {
+        0 | 1 => 0,
+        2 => rng.range(-300, 300),
+        3 => rng.range(-86400, 86400),
+        _ => rng.range(-3 * Y, 3 * Y),
+    };
+    let cfg = GenCfg { hazard_pm: 0, ..GenCfg::small(rng) };
+    let body = gen::gen_claims_body(rng, &cfg);
+    let n_ev = match tier {
+        Tier::Quick => 4 + rng.usize(8),
+        Tier::Thorough => 8 + rng.usize(20),
+    };
+    // plan the holds first so that exp / nbf can be placed before, inside and after the timeline
+    let mut holds: Vec<i64> = Vec::new();
+    for _ in 0..n_ev {
+        holds.push(match rng.usize(6) {
+            0 => rng.range(0, 60),
+            1 => rng.range(60, 3600),
+            _ => rng.log_uniform(1, 30 * Y as u64 / n_ev as u64) as i64,
+        });
+    }
+    let total: i64 = holds.iter().sum();
+    let exp = match rng.usize(20) {
+        0 => ExpSpec::Absent,
+        1 => ExpSpec::Null,
+        2 => ExpSpec::Str(rng.pick(&["tomorrow", "1883000000", "", "NaN"]).to_string()),
+        3 => ExpSpec::Neg(-(1 + rng.below(1 << 40) as i64)),
+        4 => ExpSpec::Abs(4_102_444_800 + rng.range(-Y, 0)), // up to 2100-01-01
+        5 => ExpSpec::Rel(-offset(rng)),
+        6 | 7 => ExpSpec::RelFrac(if rng.bool() { total / 2 + offset(rng) } else { -offset(rng) }),
+        8..=12 => ExpSpec::Rel(rng.range(0, total.max(1)) + if rng.bool() { 0 } else { offset(rng) % 7200 }), // expires during the timeline
+        _ => ExpSpec::Rel(total + 3600 + offset(rng)),                                                      // valid throughout
+    };
+    let nbf = match rng.usize(8) {
+        0..=3 => NbfSpec::Absent,
+        4 | 5 => NbfSpec::Rel(-offset(rng)),
+        6 => NbfSpec::Rel(offset(rng)),
+        _ => NbfSpec::Rel(rng.range(0, total.max(1))), // becomes valid during the timeline
+    };
+    let holder_key = if rng.bool() { Some(msg_gen::holder_key(rng)) } else { None };
+    let view = Value::Object(body.clone());
+    let mut events = Vec::new();
+    events.push(TEvent::Present { selection: gen::gen_selection(rng, &view, 800), kb: holder_key.is_some() && rng.bool() });
+    events.push(TEvent::Verify { fmt: rand_fmt(rng), session: rng.bool() });
+    for h in holds {
+        events.push(TEvent::Hold(h));
+        match rng.usize(10) {
+            0 => events.push(TEvent::JumpVerifier(if rng.bool() { offset(rng) } else { -offset(rng) })),
+            1 => events.push(TEvent::JumpHolder(if rng.bool() { offset(rng) } else { -offset(rng) })),
+            2 | 3 => events.push(TEvent::Present { selection: gen::gen_selection(rng, &view, 700), kb: holder_key.is_some() && rng.bool() }),
+            _ => {}
+        }
+        events.push(TEvent::Verify { fmt: rand_fmt(rng), session: rng.bool() });
+    }
+    let s = TimelineScn {
+        kind: "timeline".into(),
+        check: "C09".into(),
+        entropy_seed: rng.next_u64(),
+        clock_base: t0,
+        issuer,
+        issuer_skew: skew(rng),
+        holder_skew: skew(rng),
+        verifier_skew: skew(rng),
+        claims_body: body,
+        exp,
+        nbf,
+        iat: rng.bool(),
+        strat: if rng.bool() { Strat::All } else { Strat::Top },
+        holder_key,
+        decoys: rng.bool(),
+        fmt: rand_fmt(rng),
+        events,
+    };
+    serde_json::to_value(s)
+}
+
+const BAND: i64 = 120;
+/// Tv must stay inside [2020-01-01, 2100-01-01] (the property's bound)
+const TV_MIN: i64 = 1_577_836_800;
+const TV_MAX: i64 = 4_102_444_800;
+
+pub fn execute(scn_v: &Value) -> RunReport {
+    let scn: TimelineScn = match serde_json::from_value(scn_v.clone()) {
+        Ok(s) => s,
+        Err(e) => return RunReport { harness_error: Some(format!("invalid scenario: {}", e)), ..Default::default() },
+    };
+    let mut rep = RunReport::default();
+    let t0 = scn.clock_base.max(1_000_000_000);
+    seams::activate(scn.entropy_seed, t0, mix(&[scn.entropy_seed, 9]), 2_000_000_000);
+    let mut dir = BTreeMap::new();
+    dir.insert(scn.issuer.iss.clone(), scn.issuer.key.clone());
+    let mut w = World::new(dir);
+    let n_i = w.rt.add_node();
+    let n_h = w.rt.add_node();
+    let n_v = w.rt.add_node();
+    seams::set_skew(n_i, scn.issuer_skew);
+    seams::set_skew(n_h, scn.holder_skew);
+    seams::set_skew(n_v, scn.verifier_skew);
+    let mut v_skew = scn.verifier_skew;
+    let mut h_skew = scn.holder_skew;
+    let ti = t0 + scn.issuer_skew;
+
+    // claims with temporal members relative to the issuer's local clock
+    let mut claims = scn.claims_body.clone();
+    claims.insert("iss".into(), json!(scn.issuer.iss));
+    if scn.iat {
+        claims.insert("iat".into(), json!(ti));
+    }
+    let exp_num: Option<f64> = match &scn.exp {
+        ExpSpec::Absent => None,
+        ExpSpec::Null => {
+            claims.insert("exp".into(), Value::Null);
+            None
+        }
+        ExpSpec::Str(s) => {
+            claims.insert("exp".into(), json!(s));
+            None
+        }
+        ExpSpec::Rel(d) => {
+            claims.insert("exp".into(), json!(ti + d));
+            Some((ti + d) as f64)
+        }
+        ExpSpec::RelFrac(d) => {
+            claims.insert("exp".into(), json!((ti + d) as f64 + 0.5));
+            Some((ti + d) as f64 + 0.5)
+        }
+        ExpSpec::Neg(x) => {
+            claims.insert("exp".into(), json!(x));
+            Some(*x as f64)
+        }
+        ExpSpec::Abs(x) => {
+            claims.insert("exp".into(), json!(x));
+            Some(*x as f64)
+        }
+    };
+    let nbf_num: Option<i64> = match &scn.nbf {
+        NbfSpec::Absent => None,
+        NbfSpec::Rel(d) => {
+            claims.insert("nbf".into(), json!(ti + d));
+            Some(ti + d)
+        }
+    };
+    let claims = Value::Object(claims);
+    let ih = World::new_issuer(&scn.issuer.key, scn.issuer.alg.clone());
+    let issued = w.issue(n_i, &ih, &scn.issuer.key, &claims, &scn.strat, scn.holder_key.as_deref(), scn.decoys, scn.fmt);
+    let mut nontrivial: BTreeSet<u64> = BTreeSet::new();
+    let mut states: BTreeSet<u64> = BTreeSet::new();
+    let mut sigs: BTreeSet<String> = BTreeSet::new();
+    let finish = |mut rep: RunReport, mut w: World, nontrivial: BTreeSet<u64>, states: BTreeSet<u64>| {
+        rep.nontrivial = nontrivial.into_iter().collect();
+        rep.states = states.into_iter().collect();
+        rep.add("rt.threads_spawned", w.rt.spawned);
+        rep.add("ops", w.ops);
+        w.rt.shutdown();
+        let end = seams::deactivate();
+        rep.loghash = end.loghash;
+        rep.add("seam.entropy_requests", end.ent_requests);
+        rep.add("seam.clock_reads", end.clock_reads);
+        rep.sim_seconds = (end.clock_ns / 1_000_000_000 - t0).max(0) as u64;
+        rep
+    };
+    let Out::Ok(sdjwt) = issued else {
+        rep.count("creds_not_issued");
+        rep.sample = Some(json!({"note": "credential not issued", "issue": issued.describe()}));
+        return finish(rep, w, nontrivial, states);
+    };
+    let holder = match w.holder_new(n_h, &sdjwt, scn.fmt) {
+        Out::Ok(h) => h,
+        o => {
+            rep.count("holder_refused");
+            rep.sample = Some(json!({"note": "holder refused", "holder": o.describe()}));
+            return finish(rep, w, nontrivial, states);
+        }
+    };
+    let sess = ("https://verifier.example".to_string(), "nonce-c09".to_string());
+    let mut current: Option<(Message, bool)> = None; // latest presentation, has kb
+    let mut elapsed: i64 = 0;
+
+    for (ei, ev) in scn.events.iter().enumerate() {
+        match ev {
+            TEvent::Hold(d) => {
+                let d = (*d).max(0);
+                seams::advance_clock_s(d);
+                elapsed += d;
+                rep.count("fault.hold");
+            }
+            TEvent::JumpVerifier(d) => {
+                v_skew += d;
+                seams::set_skew(n_v, v_skew);
+                rep.count(if *d < 0 { "fault.jump_back" } else { "fault.jump_forward" });
+                if *d < 0 {
+                    rep.count("probe.clock_jump_back_seen");
+                }
+            }
+            TEvent::JumpHolder(d) => {
+                h_skew += d;
+                seams::set_skew(n_h, h_skew);
+                rep.count("fault.skew_holder");
+            }
+            TEvent::Present { selection, kb } => {
+                let kbargs = if *kb { scn.holder_key.as_ref().map(|k| KbArgs { aud: sess.0.clone(), nonce: sess.1.clone(), key: k.clone(), alg: Some(crate::keys::alg_of(k).to_string()) }) } else { None };
+                // a fresh holder per presentation: instance reuse is C11's business
+                let h = match w.holder_new(n_h, &sdjwt, scn.fmt) {
+                    Out::Ok(h) => h,
+                    _ => holder.clone(),
+                };
+                if let Out::Ok(p) = w.present(n_h, &h, selection, kbargs.as_ref()) {
+                    if let Some(m) = Message::parse(&p, scn.fmt) {
+                        current = Some((m, kbargs.is_some()));
+                    }
+                } else {
+                    rep.count("presentations_refused");
+                }
+            }
+            TEvent::Verify { fmt, session } => {
+                let Some((m, has_kb)) = current.clone() else { continue };
+                let Some(wire) = m.serialize(*fmt) else { continue };
+                let session = if *session && has_kb { Some((Some(sess.0.clone()), Some(sess.1.clone()))) } else { None };
+                let now_v = seams::clock_s() + v_skew;
+                if !(TV_MIN..=TV_MAX).contains(&now_v) {
+                    rep.count("skipped_tv_out_of_bounds");
+                    continue;
+                }
+                let vo = w.verify(n_v, &wire, *fmt, session.clone(), &Resolver::Directory);
+                let tv = vo.clock_reads.first().copied().unwrap_or(now_v);
+                let accepted = vo.res().is_ok();
+                rep.evaluations += 1;
+                // classification relative to the window, on the verifier's local time
+                let exp_state = match exp_num {
+                    None => "exp_missing",
+                    Some(e) if e < (tv - BAND) as f64 => "expired",
+                    Some(e) if e >= (tv + BAND) as f64 => "exp_ok",
+                    Some(_) => "exp_band",
+                };
+                let nbf_state = match nbf_num {
+                    None => "nbf_absent",
+                    Some(n) if n > tv + BAND => "nbf_future",
+                    Some(n) if n <= tv - BAND => "nbf_past",
+                    Some(_) => "nbf_band",
+                };
+                let mut viol: Option<(String, String, Value)> = None;
+                if exp_state == "exp_missing" || exp_state == "expired" || nbf_state == "nbf_future" {
+                    rep.count("oracle.c09.must_reject");
+                    if accepted {
+                        let why = if exp_state != "exp_ok" && exp_state != "exp_band" { exp_state } else { nbf_state };
+                        viol = Some(("must-reject".into(), format!("c09:accepted:{}", why), json!({"why": why, "exp": claims.get("exp"), "nbf": nbf_num, "verifier_local_time": tv, "format": fmt.name(), "kb": session.is_some()})));
+                    }
+                } else if exp_state == "exp_ok" && nbf_state != "nbf_band" {
+                    // in window: not rejected for temporal reasons — differential against the same
+                    // message at a canonical in-window instant
+                    rep.count("oracle.c09.in_window");
+                    let e = exp_num.unwrap_or(0.0) as i64;
+                    let lo = nbf_num.unwrap_or(i64::MIN / 4);
+                    let tref_local = if lo > i64::MIN / 8 { (lo + 3600).min(e - 3600).max(lo + BAND) } else { e - 3600 };
+                    let saved_ns = seams::clock_s();
+                    // put the verifier's local clock at tref (global = tref - skew)
+                    seams::set_clock_s(tref_local - v_skew);
+                    let vr = w.verify(n_v, &wire, *fmt, session.clone(), &Resolver::Directory);
+                    seams::set_clock_s(saved_ns);
+                    rep.evaluations += 1;
+                    if vr.res().is_ok() {
+                        rep.count("oracle.c09.reference_accepted");
+                    }
+                    if vr.res().is_ok() && !accepted && !vo.res().is_panic() {
+                        viol = Some((
+                            "in-window-not-rejected".into(),
+                            "c09:rejected_in_window".into(),
+                            json!({"verdict": vo.res().describe(), "exp": claims.get("exp"), "nbf": nbf_num, "verifier_local_time": tv, "reference_instant": tref_local, "format": fmt.name()}),
+                        ));
+                    }
+                } else {
+                    rep.count("oracle.c09.unasserted_band");
+                }
+                let bucket = format!("{}|{}|{}|{}|kb={}|{}", exp_state, nbf_state, vo.res().class(), fmt.name(), session.is_some(), scn.issuer.key);
+                states.insert(hash_str(&bucket));
+                if exp_state != "exp_band" && nbf_state != "nbf_band" {
+                    // distinct (credential shape, Tv bucket relative to exp/nbf, verdict)
+                    let dist = exp_num.map(|e| ((e as i64 - tv).abs().max(1) as f64).log2() as i64).unwrap_or(-1);
+                    nontrivial.insert(hash_str(&format!("{}|{}|{:?}|{:?}", bucket, dist, scn.exp, scn.nbf)));
+                }
+                if rep.sample.is_none() && ei > 2 {
+                    rep.sample = Some(json!({"exp": claims.get("exp"), "nbf": nbf_num, "issuer_local_issuance": ti, "verifier_local_time": tv, "elapsed_s": elapsed,
+                        "verifier_skew": v_skew, "format": fmt.name(), "kb_session": session.is_some(), "verdict": vo.res().describe(), "window": [exp_state, nbf_state]}));
+                }
+                if let Some((clause, sig, detail)) = viol {
+                    if sigs.insert(sig.clone()) {
+                        let mut red = scn.clone();
+                        red.events.truncate(ei + 1);
+                        let mut trigger = BTreeMap::new();
+                        trigger.insert("exp_state".into(), json!(exp_state));
+                        trigger.insert("nbf_state".into(), json!(nbf_state));
+                        trigger.insert("format".into(), json!(fmt.name()));
+                        rep.violations.push(Violation { property: "C09".into(), clause, signature: sig, trigger, detail, scenario: serde_json::to_value(&red).unwrap_or(Value::Null) });
+                    }
+                }
+            }
+        }
+    }
+    let _ = world::trunc;
+    finish(rep, w, nontrivial, states)
+}
